@@ -329,6 +329,7 @@ impl SearchStep {
 }
 
 pub fn run_b(sc: &ScenarioB, opts: &BOptions) -> OutcomeB {
+    super::cli::heartbeat();
     let _ = take_panic();
     B_RESULT.with(|r| *r.borrow_mut() = None);
     B_PROGRESS.with(|p| *p.borrow_mut() = 0);
